@@ -66,7 +66,7 @@ func failing(c *Ctx) []*Obligation {
 		}
 		isKnown := false
 		for _, k := range known {
-			if k.Kind == "finding" && k.Rule == o.Rule && k.Construct == o.Construct {
+			if k.Kind == "finding" && k.Rule == o.Rule && k.Construct == strings.ReplaceAll(o.Construct, " ", "") {
 				isKnown = true
 			}
 		}
